@@ -233,5 +233,37 @@ Example ex_law1 :
   ModelsA ex_circ 2 [2] = [[1; 2]; [-1; 2]].
 Proof. vm_compute. split; reflexivity. Qed.
 
+(* all hypotheses of C07_valid / C07_uniform_ideal_single hold together on the example *)
+Example ex_valid_applies :
+  exists L, snd (fst (uniform_random_sampling (build ex_circ 2) [2] 3 ex_chs ex_s0)) = Some L /\
+            length L = 3%nat /\ Forall (fun m => In m (ModelsA ex_circ 2 [2])) L.
+Proof.
+  apply (C07_valid ex_circ 2 [2] ex_s0 ex_wf ex_exec_ok ex_in_range).
+  - cbn. discriminate.
+  - lia.
+  - vm_compute. reflexivity.
+  - vm_compute. reflexivity.
+Qed.
+
+Example ex_uniform_applies :
+  Permutation (map fst (law1 (build ex_circ 2) ex_ts)) (ModelsA ex_circ 2 [2]) /\
+  Forall (fun e => (snd e == 1 / inject_Z (MCA ex_circ 2 [2%Z]))%Q) (law1 (build ex_circ 2) ex_ts).
+Proof.
+  destruct (C07_uniform_ideal_single ex_circ 2 [2] ex_ts ex_wf ex_in_range ex_temps_ok ex_or_no_true)
+    as [H1 [H2 _]]; [vm_compute; reflexivity|]. split; assumption.
+Qed.
+
+(* Outside the theorems (C07_valid is vacuous there, no stream satisfies the contract): an Or node
+   whose children with non-zero temp are all hidden true nodes, e.g. the check_wf-accepted circuit
+   [Lit 1; TrueN; Or [1]; And [2; 0]] over 1 feature (c2d text "nnf 4 3 1 / L 1 / A 0 / O 0 1 1 /
+   A 2 0 2").  MCA = 1, but the Rust builds an empty weight vector and panics in
+   WeightedAliasIndex::new(..).unwrap(); sample_node has no Panic outcome for this. *)
+Example ex_or_over_true :
+  let c := [Lit 1; TrueN; Or [1%nat]; And [2%nat; 0%nat]] in
+  check_wf c 1 = true /\ MCA c 1 [] = 1 /\
+  urs_choices_okb (build c 1) [] 1 [Split [1]; Perm [0%nat]; Perm [0%nat]; Perm [0%nat]] (fresh_scratch c) = false /\
+  urs_choices_okb (build c 1) [] 1 [Split [0]; Perm [0%nat]; Perm [0%nat]; Perm [0%nat]] (fresh_scratch c) = false.
+Proof. vm_compute. repeat split. Qed.
+
 Example ex_clean : Clean ex_circ ex_s0.
 Proof. apply fresh_clean. Qed.
